@@ -104,6 +104,12 @@ def run(ctx):
         ca, cb = mean_arg(a[0]), mean_arg(a[1])
         if a[0] == ("field", selfp, "min") and cb == first:
             kind = "left"
+        elif ca is not None and cb is not None and ca[0] == "index" and cb[0] == "index" and ca[1] == cb[1] and ca[1][0] == "elem" \
+                and ca[2] == const(0) and cb[2] == const(1) and ca[1][1][0] == "call" and ca[1][1][1].endswith("::windows") \
+                and tuple(ca[1][1][2]) == (cents, const(2)):
+            # `for pair in centroids.windows(2)`: pair[1] runs over centroids[1..], pair[0] is its predecessor
+            kind = "interior"
+            cur, prev, start = cb, ca, 1
         elif ca is not None and cb is not None and cb[0] == "elem":
             # interior: right knot = the loop's current centroid, left knot = its predecessor
             stream = cb[1]
@@ -166,7 +172,7 @@ def run(ctx):
         init = tb.loop_init(cumv[1], cumv[2])
         upd = tb.loop_update(cumv[1], cumv[2])
         want_init = const(0.0) if start == 0 else ("field", first, "count")
-        ctx.check(init == want_init and upd == mk("Add", ("field", cur, "count"), cumv), "R15-knots", q.key + ":cum", q, "cum accumulates centroid weights from the weight before the first visited centroid",
+        ctx.check((init == want_init or lin(init) == lin(want_init)) and upd == mk("Add", ("field", cur, "count"), cumv), "R15-knots", q.key + ":cum", q, "cum accumulates centroid weights from the weight before the first visited centroid",
                   "cumulative weight is initialised with %s and updated with %s" % (fmt(init), fmt(upd)))
     # ---- segment selection: the guards that choose between the three (correct) interpolation formulas -------------
     def subst(t, m):
@@ -206,7 +212,7 @@ def run(ctx):
         # (2) hand-over between the left tail and the loop: the site reads centroids[i-1], so the first iteration (cum = its initial value,
         # cur = centroids[0]) must be excluded by a dominating guard that is the SAME float comparison (a merely real-equivalent one rounds
         # differently: i = 0 reaches centroids[i - 1])
-        if prev[0] == "index" and prev in subterms(a[0]) and oksel:
+        if prev[0] == "index" and prev[1] == cents and prev in subterms(a[0]) and oksel:
             c0, tr0 = oksel[0]
             at_first = subst(c0, {cumv: tb.loop_init(cumv[1], cumv[2]), cur: first})
             need = neg_norm(cmp_norm(at_first, tr0))
@@ -357,14 +363,21 @@ def read_rules(ctx):
     if mg is not None:
         pe = PathEnumerator(mg, prog, ctx.summ, max_back=1, limit=4000)
         emp = ("call", "std::vec::Vec::is_empty", (("field", selfp, "backlog"),))
-        okm = False
+        okm = None
         for p in pe.paths():
             if p.exit_kind != "return":
                 continue
-            facts = {repr(c): t for c, t in pe.path_facts(p)}
-            if fv(facts, emp) is True:
-                okm = not [e for e in p.events if e["kind"] == "write" and e["root"] == SELF and e["how"] != "borrow"]
-                break
+            # the FIRST test of `backlog.is_empty()` on the path decides (terms are not versioned by heap state: a later
+            # `debug_assert!(self.backlog.is_empty())` after the drain is the same term)
+            first = None
+            for c, t in pe.path_facts(p):
+                first = fv({repr(c): t}, emp)
+                if first is not None:
+                    break
+            if first is True:
+                quiet = not [e for e in p.events if e["kind"] == "write" and e["root"] == SELF and e["how"] != "borrow"]
+                okm = quiet if okm is None else (okm and quiet)
+        okm = bool(okm)
         ctx.check(okm, "R15-merge-before-read", mg.key + ":idempotent", mg, "merge returns without writing when the backlog is empty", "merge modifies the digest even when the backlog is empty (repeated reads may differ)")
 
     # ---- validation -------------------------------------------------------------------------------------------------
